@@ -23,6 +23,19 @@ cost_unit = KaniUnit(
         H("c07_min_cost_const", "complete", "MIN_COST is a finite strictly positive constant"),
     ])
 
-UNITS = [cost_unit]
+CM = CORE + "/src/model/cost/cost_model.rs"
+cm_unit = KaniUnit(
+    "c07_cm", CORE,
+    modules=[dict(file=CM, src="c07_cost_model.rs")],
+    harnesses=[
+        H("c07_map_value", "bounded", "VehicleCostRate::map_value == the documented definition (bit-exact), finite in => finite out", bound="Combined nesting depth 1, <= 2 members; |x|,|factor|,|offset| <= 1e6"),
+        H("c07_network_rate", "bounded", "NetworkCostRate: edge lookup only for traversal, edge-pair lookup only for access, missing key -> 0, Combined sums", bound="lookup tables of 1 entry, Combined of 2"),
+        H("c07_traversal_cost_sum", "bounded", "CostModel::traversal_cost (Sum) == floor(sum_i w_i*rate_i(delta_i) + per-edge surcharge) > 0, finite; zero-weight feature ignored", bound="1..=2 features, leaf rates, all magnitudes <= 1e6", timeout=1500),
+        H("c07_access_cost_and_estimate_sum", "bounded", "CostModel::access_cost (Sum) == floored weighted sum incl. per-turn surcharge; cost_estimate == vehicle cost clipped at 0, finite", bound="1..=2 features, leaf rates, all magnitudes <= 1e6", timeout=1500),
+        H("c07_traversal_cost_mul", "bounded", "CostModel::traversal_cost / cost_estimate (Mul): floored product, > 0 / >= 0, finite", bound="2 features, leaf rates, magnitudes <= 1e6, finite product", timeout=1500),
+        H("c07_short_state_is_err", "bounded", "state vector shorter than the model => Err, no panic", bound="2 features"),
+    ])
+vm_unit = VerusUnit('c07_costmodel', 'c07_costmodel', rlimit=30)
+UNITS = [cost_unit, vm_unit]
 EXPLANATION = "contracts on the cost floor / clip functions (all f64), the cost model and the edge traversal split"
 NOT_DECIDED = "CostModel::new beyond two features"
